@@ -37,6 +37,7 @@ LEVEL_TEXT = ('Full in exact arithmetic: Coq theorems over R about predict / cor
               'arguments imply purity for any function; the unwrapped predict on writable arrays is refuted by a witness (the jit wrapper is load-bearing). '
               'Streams: purity + Newmark formulas against the ORIGINAL state under a step-doubling driver on numpy / read-only numpy / jax state; scale invariance '
               'of whole runs and of predict / correct on arrays over amplitudes 1e-12..1e12 (bit-for-bit for powers of two), additivity of predict / correct. '
+              'Pressure projection (round 4 follow-up): not modelled, but the L2 clauses (balance M A1 + d(compute_output_strain_energy)/dU(U1) = 0, kinetic + REPORTED strain energy conserved, update formulas) are checked on the dynamics functions\' own outputs for a factory call with pressureProjectionDegree = 0 on quadratic triangles (linear elastic at strains ~1e-7, and neo-Hookean at finite strain for the balance). '
               'Still premises: unisolvence (false for admitted under-integrating rules; checked numerically), K c = 0 only exact for exact tables, '
               'the mesh-integral model is tied to FunctionSpace/Mechanics by correspondence (binary64 energies, forms, algorithmic energy on real '
               'function spaces incl. an under-integrated order-2 one), axisymmetric / pressure projection not modelled; everything in binary64 is '
@@ -66,7 +67,8 @@ ASSUMPTIONS = ['exact real arithmetic in theorems; dt <> 0 and beta <> 0 stated 
                'linearity of the run: quadratic strain energy (linear elasticity), M positive definite (<=> unisolvence), K >= 0, beta > 0, all dt <> 0; linearity of predict / correct themselves needs nothing',
                'purity theorems quantify over every value oracle / writability / heap / argument list of the store model; that the store model describes CPython + numpy + jax is trusted (see TRUSTED) and sampled by the purity stream',
                'functional extensionality (standard library axiom) for equality of fields']
-RULE = ('purity stream (problems 0 and 1 of every run, trapezoidal, order 1 and 2): state held by the caller as writable numpy arrays, read-only numpy arrays and jax arrays; step-doubling driver (one step dt and two steps dt/2 from the SAME state objects, the half steps accepted) over random step sizes; after every predict / correct call the arrays handed in are compared bit-for-bit with copies taken before, predictor / update formulas are evaluated against those copies, accepted states conserve energy resp. reproduce a rigid translation. '
+RULE = ('pressure-projection problems (own random stream): create_dynamics_functions(..., pressureProjectionDegree=0) on a structured order-2 mesh, (a) linear elastic, trapezoidal, random consistent state scaled to strains ~1e-7 (the volume-averaged-J scaling makes the energy non-quadratic at O(strain); drift tolerance 1e-6 per step, observed <= 3e-8), 8 (thorough 40) variable steps: balance against the gradient of the REPORTED strain energy, energy conservation with the reported energies; (b) neo-Hookean, random Newmark parameters, start at rest with a non-rigid velocity (displacement per step <= 3% of the node spacing), 4 (thorough 15) steps: balance and update formulas. '
+        'purity stream (problems 0 and 1 of every run, trapezoidal, order 1 and 2): state held by the caller as writable numpy arrays, read-only numpy arrays and jax arrays; step-doubling driver (one step dt and two steps dt/2 from the SAME state objects, the half steps accepted) over random step sizes; after every predict / correct call the arrays handed in are compared bit-for-bit with copies taken before, predictor / update formulas are evaluated against those copies, accepted states conserve energy resp. reproduce a rigid translation. '
         'scale streams: one random consistent state per problem, run of 3 (thorough 8) variable steps, repeated from s * state for s = 2^k nearest 1e-12..1e12 (10 values), 10^k (6 values) and random factors over 24 decades, compared normwise with s * (unit run); predict / correct on arrays of 24 entries (magnitudes over six decades, some zeros; numpy and jax arguments) for the same factors plus additivity on a second random triple. '
         'mesh-integral model stream (fe_model): on three real function spaces per run (structured order 1; distorted order 2 with the under-integrating degree-2 rule; distorted order 2 fully integrated) the arrays fs.shapes / fs.shapeGrads / fs.vols / mesh.conns are fed to model/M_C15_FE.v and its kinetic, strain and algorithmic energies, mass and stiffness forms on seeded random fields (displacement amplitude 5% of the width, random predictor offset, dt over two decades) and total volume are compared with the library\'s reported energies and the jax Hessians of them; a problem is distinct by (mesh, order, rule, material constants). '
         'additional problems in every tier: element order 2 (thorough: also 3) with UNDER-integrating rules (degree 2 / 4) on distorted meshes with non-rigid initial velocity, energy measured with the library\'s own compute_output_kinetic_energy + compute_output_strain_energy; entrywise equality of the mass driving the integrator (beta dt^2 (Hessian of the algorithmic energy - K)) and the mass of the reported kinetic energy. '
@@ -100,12 +102,12 @@ def impl():
 class Problem:
     """a real DynamicsFunctions on a structured mesh plus dense-Newton minimisation of its algorithmic energy"""
 
-    def __init__(self, Nx, Ny, xe, ye, order, E, nu, rho, gamma, beta, material='linear', qdeg=None, distort=0.0, dseed=0, mode='plane strain'):
+    def __init__(self, Nx, Ny, xe, ye, order, E, nu, rho, gamma, beta, material='linear', qdeg=None, distort=0.0, dseed=0, mode='plane strain', ppd=None):
         I = impl()
         jax, jnp = I['jax'], I['jnp']
         qdeg = qdeg if qdeg is not None else 2 * order
         self.args = dict(Nx=Nx, Ny=Ny, xExtent=xe, yExtent=ye, order=order, E=E, nu=nu, rho=rho, gamma=gamma, beta=beta, material=material,
-                         qdeg=qdeg, distort=distort, dseed=dseed, mode=mode)
+                         qdeg=qdeg, distort=distort, dseed=dseed, mode=mode, ppd=ppd)
         self.full_rule = qdeg >= 2 * order
         if distort > 0:
             # distorted mesh: interior vertices of the structured simplex mesh moved by a seeded random fraction of the cell size,
@@ -130,7 +132,8 @@ class Problem:
         self.mesh = mesh
         props = {'elastic modulus': E, 'poisson ratio': nu, 'density': rho}
         mat = (I['LE'] if material == 'linear' else I['NH']).create_material_model_functions(props)
-        self.dyn = I['Mechanics'].create_dynamics_functions(self.fs, mode, mat, I['Mechanics'].NewmarkParameters(gamma=gamma, beta=beta))
+        self.dyn = I['Mechanics'].create_dynamics_functions(self.fs, mode, mat, I['Mechanics'].NewmarkParameters(gamma=gamma, beta=beta),
+                                                            **({} if ppd is None else dict(pressureProjectionDegree=ppd)))
         self.state = self.dyn.compute_initial_state()
         self.shape = mesh.coords.shape
         self.n = self.shape[0] * self.shape[1]
@@ -198,7 +201,7 @@ class Problem:
         return U1, V1.ravel(), A1.ravel(), Up
 
 
-def random_problem(ctx, r, trapezoidal, order=None, material='linear', qdeg=None, distort=0.0, mode='plane strain'):
+def random_problem(ctx, r, trapezoidal, order=None, material='linear', qdeg=None, distort=0.0, mode='plane strain', ppd=None):
     order = order or r.choice([1, 2])
     Nx, Ny = (r.randrange(3, 6), r.randrange(3, 5)) if order >= 2 else (r.randrange(3, 8), r.randrange(3, 7))
     xe, ye = (0.0, r.uniform(0.5, 2.0)), (0.0, r.uniform(0.2, 1.0))
@@ -211,21 +214,21 @@ def random_problem(ctx, r, trapezoidal, order=None, material='linear', qdeg=None
     else:
         gamma = r.uniform(0.5, 1.0)
         beta = 0.25 * (gamma + 0.5) ** 2 * r.uniform(1.0, 1.5)
-    return Problem(Nx, Ny, xe, ye, order, E, nu, rho, gamma, beta, material, qdeg=qdeg, distort=distort, dseed=r.randrange(1 << 30), mode=mode)
+    return Problem(Nx, Ny, xe, ye, order, E, nu, rho, gamma, beta, material, qdeg=qdeg, distort=distort, dseed=r.randrange(1 << 30), mode=mode, ppd=ppd)
 
 
 def nrm(x):
     return float(impl()['jnp'].linalg.norm(x))
 
 
-def check_steps(ctx, P, r, nsteps, kind, distinct, init=None, dts_fixed=None):
+def check_steps(ctx, P, r, nsteps, kind, distinct, init=None, dts_fixed=None, amp_factor=1.0, drift_rtol=1e-10, rest_start=False, tag=''):
     """run nsteps of the real integrator; returns number of steps.  kind: 'general' | 'energy' | 'translation'.
     init = (U, V, A) and dts_fixed replay a recorded state exactly (every failure case stores U0, V0, A0 and the step sizes)"""
     I = impl()
     jnp, onp = I['jnp'], I['onp']
     n = P.n
     Lx = P.args['xExtent'][1]
-    amp = 0.05 * Lx
+    amp = 0.05 * Lx * amp_factor
     a_ = P.args
     hmin = min((a_['xExtent'][1] - a_['xExtent'][0]) / (a_['Nx'] - 1), (a_['yExtent'][1] - a_['yExtent'][0]) / (a_['Ny'] - 1)) / a_['order']
     dt_unit = Lx / math.sqrt(P.args['E'] / P.rho) * 10
@@ -250,11 +253,11 @@ def check_steps(ctx, P, r, nsteps, kind, distinct, init=None, dts_fixed=None):
         V = jnp.tile(jnp.array(c), P.shape[0])
         A = jnp.zeros(n)
     else:
-        V = jnp.array([r.uniform(-1, 1) for _ in range(n)])
+        V = jnp.array([r.uniform(-1, 1) for _ in range(n)]) * amp_factor
         if nonlinear:
             # keep the motion inside the uninverted range over the run: velocity * largest step well below the node spacing
             V = V * (0.1 * hmin / dt_max)
-        if P.full_rule:
+        if P.full_rule and not rest_start:
             U = jnp.array([r.uniform(-amp, amp) for _ in range(n)])
             # consistent initial acceleration: M A0 + fint(U0) = 0
             M = P.hke(jnp.zeros(n))
@@ -270,7 +273,7 @@ def check_steps(ctx, P, r, nsteps, kind, distinct, init=None, dts_fixed=None):
             U, shrink = 0.5 * U, shrink + 1
         A = -jnp.linalg.solve(P.hke(jnp.zeros(n)), P.gse(U)) if P.full_rule else A
         ctx.cov['nonlinear_start_min_detF'] = P.min_detF(U)
-    case0 = dict(fn='newmark', kind=kind, U0=[float(x) for x in U], V0=[float(x) for x in V], A0=[float(x) for x in A], **P.args)
+    case0 = dict(fn='newmark', kind=kind, drift_rtol=drift_rtol, U0=[float(x) for x in U], V0=[float(x) for x in V], A0=[float(x) for x in A], **P.args)
     E0 = float(P.ke(V) + P.se(U))
     if not (math.isfinite(E0) and bool(jnp.all(jnp.isfinite(A)))):
         ctx.fail('conclusion', 'initial energy or consistent initial acceleration is not finite (E0 = %r): the reported kinetic/strain '
@@ -323,7 +326,7 @@ def check_steps(ctx, P, r, nsteps, kind, distinct, init=None, dts_fixed=None):
             En = float(P.ke(V) + P.se(U))
             drift = abs(En - E0) / E0
             worst['drift'] = max(worst['drift'], drift)
-            if not (drift <= 1e-10 * (k + 1) + 1e-12):
+            if not (drift <= drift_rtol * (k + 1) + 1e-12):
                 ctx.fail('conclusion', 'total energy not conserved with trapezoidal parameters: E0 = %r, E after %d steps = %r (relative drift %.3g)'
                          % (E0, k + 1, En, drift), case=case, concrete=True)
                 break
@@ -338,8 +341,8 @@ def check_steps(ctx, P, r, nsteps, kind, distinct, init=None, dts_fixed=None):
         if kind != 'translation':
             distinct.add((json.dumps(P.args, sort_keys=True), kind, k))
     for kk, v in worst.items():
-        ctx.cov.setdefault('worst_' + kk, 0.0)
-        ctx.cov['worst_' + kk] = max(ctx.cov['worst_' + kk], v)
+        ctx.cov.setdefault('worst_' + tag + kk, 0.0)
+        ctx.cov['worst_' + tag + kk] = max(ctx.cov['worst_' + tag + kk], v)
     return nsteps
 
 
@@ -896,6 +899,22 @@ def correspondence(ctx, model_ok):
     evals += 6 + check_steps(ctx, Pa, r, ctx.n(25, 120), 'energy', distinct)
     evals += check_steps(ctx, Pa, r, ctx.n(6, 20), 'translation', distinct)
     ctx.log('axisymmetric problem (order %d, %d dofs) done' % (Pa.args['order'], Pa.n))
+    # pressure projection (volume-averaged J, pressureProjectionDegree = 0 on quadratic triangles): the strain energy the dynamics functions REPORT
+    # (compute_output_strain_energy) must be the one the algorithmic energy integrates -- balance M A1 + d(reported SE)/dU(U1) = 0 after every step
+    # and kinetic + reported strain energy conserved (trapezoidal, linear elastic).  The J-scaling makes the projected energy non-quadratic at
+    # O(strain), so the state is kept at strains ~1e-7 and the drift tolerance is 1e-6 per step (observed ~3e-8: non-quadratic part + rounding of strains of that size); a different gradient in
+    # the reported energy shows at O(1).
+    rpp = ctx.rng('pressure_projection')
+    Pp = random_problem(ctx, rpp, trapezoidal=True, order=2, ppd=0)
+    evals += check_steps(ctx, Pp, rpp, ctx.n(8, 40), 'energy', distinct, amp_factor=1e-7, drift_rtol=1e-6, tag='pressure_projected_')
+    ctx.count('pressure_projection_problems')
+    ctx.log('pressure-projected (degree 0) order-2 problem (%d dofs) done' % Pp.n)
+    Ppn = random_problem(ctx, rpp, trapezoidal=False, order=2, material='neohookean', ppd=0)
+    # finite strain: start from the rest position (U = 0, A = 0 is consistent) with a non-rigid velocity, so that the predictor -- the start iterate of
+    # the harness' Newton solve -- stays uninverted (a rough random U0 gives accelerations that invert elements within one large step)
+    evals += check_steps(ctx, Ppn, rpp, ctx.n(4, 15), 'general', distinct, amp_factor=0.3, rest_start=True, tag='pressure_projected_')
+    ctx.count('pressure_projection_problems')
+    ctx.log('pressure-projected neo-Hookean order-2 problem done')
     # nonlinear material: balance and update formulas only
     Pn = random_problem(ctx, r, trapezoidal=False, order=1, material='neohookean')
     evals += check_steps(ctx, Pn, r, ctx.n(6, 25), 'general', distinct)
@@ -1087,7 +1106,7 @@ def replay(ctx, path):
         keys = ('Nx', 'Ny', 'xExtent', 'yExtent', 'order', 'E', 'nu', 'rho', 'gamma', 'beta', 'material')
         a = {k: case[k] for k in keys}
         P = Problem(a['Nx'], a['Ny'], tuple(a['xExtent']), tuple(a['yExtent']), a['order'], a['E'], a['nu'], a['rho'], a['gamma'], a['beta'], a['material'],
-                    qdeg=case.get('qdeg'), distort=case.get('distort', 0.0), dseed=case.get('dseed', 0), mode=case.get('mode', 'plane strain'))
+                    qdeg=case.get('qdeg'), distort=case.get('distort', 0.0), dseed=case.get('dseed', 0), mode=case.get('mode', 'plane strain'), ppd=case.get('ppd'))
         c2 = C.Ctx(ID, 'quick', rep.get('seed', 0))
         r = c2.rng('replay')
         if case['fn'] == 'forms':
@@ -1097,7 +1116,8 @@ def replay(ctx, path):
         elif case['fn'] == 'newmark_scale':
             scale_case(c2, P, case['U0'], case['V0'], case['A0'], case['dts'], case['scale'], case['scale_kind'])
         elif 'U0' in case:
-            check_steps(c2, P, r, max(len(case.get('dts', [])), 1), case['kind'], set(), init=(case['U0'], case['V0'], case['A0']), dts_fixed=case.get('dts'))
+            check_steps(c2, P, r, max(len(case.get('dts', [])), 1), case['kind'], set(), init=(case['U0'], case['V0'], case['A0']), dts_fixed=case.get('dts'),
+                        drift_rtol=case.get('drift_rtol', 1e-10))
         else:
             check_steps(c2, P, r, max(len(case.get('dts', [])), 10), case['kind'], set())
         bad = [f['what'] for f in c2.failures]
